@@ -753,12 +753,17 @@ def observe(rng, s, kind, o, keyed):
         n = rng.randint(0, 5 * bs)
         s.add("%s which %d" % (kind, o))
         s.add("%s crypt %d %s %d" % (kind, o, hexs(rbytes(rng, n)), n))
+        if rng.random() < 0.5:
+            s.add("%s crypt %d . 0" % (kind, o))                     # zero-length call with valid pointers
     else:
         s.add("%s psize %d" % (kind, o)); s.add("%s which %d" % (kind, o))
         nb = rng.randint(0, 10)
         if kind == "mp":
+            if rng.random() < 0.5: s.add("mp swap %d" % o)
+            if rng.random() < 0.3: s.add("mp crypt %d . . 0" % o)
             s.add("mp crypt %d %s %s %d" % (o, hexs(rbytes(rng, nb * 8)), hexs(rbytes(rng, nb * 8)), nb * 8))
         else:
+            if rng.random() < 0.3: s.add("%s enc %d . 0" % (kind, o))
             s.add("%s enc %d %s %d" % (kind, o, hexs(rbytes(rng, nb * bs)), nb * bs))
 
 def valid_setup(rng, s, kind, o):
@@ -884,6 +889,12 @@ def gen_c16(rng, tier):
                     s.add("cfg failalloc 0")
                     s.add("%s which %d" % (kind, o))
                     # the object must be inert (k = 1) or fully usable (k = 2: nothing failed)
+                    if kind in ("c128", "c64", "mc"):
+                        s.add("%s crypt %d . 0" % (kind, o)); s.add("%s setctr %d . 0" % (kind, o)); s.add("%s setctr %d - 0" % (kind, o))
+                    elif kind == "mp":
+                        s.add("mp swap %d" % o); s.add("mp crypt %d . . 0" % o)
+                    else:
+                        s.add("%s enc %d . 0" % (kind, o)); s.add("%s dec %d . 0" % (kind, o))
                     valid_setup(rng, s, kind, o); observe(rng, s, kind, o, True)
                     s.add("%s cleanup %d" % (kind, o)); s.add("%s cleanup %d" % (kind, o))
                     # and it can be initialised again
